@@ -185,6 +185,74 @@ def run(ctx, prog, res):
             f = prog.require_fn("opening_hours_syntax::parser::" + b)
             dflt = [t["args"][1].get("int") for _, t in f.calls() if flow.call_name(t) == "core::option::Option::<T>::unwrap_or" and "u64" in t["callee"].get("path_args", "")]
             r5.check(dflt == [1], {"builder": b, "default_step": dflt}, "C04.R5:default-step:%s" % b, "%s defaults a missing step to %s" % (b, dflt), lib.where_of(f))
+    # the printer's `unwrap` on the first listed position (reviewed row) relies on: the parser never
+    # builds a weekday selector with no position selected
+    WDR = "opening_hours_syntax::rules::day::WeekDayRange"
+    n_aggs = 0
+    for f in prog.fns.values():
+        if f.crate != lib.SYN or f.module != "opening_hours_syntax::parser" or f.from_expansion:
+            continue
+        for bb, b in f.live_blocks():
+            for st in b["stmts"]:
+                if st["k"] != "assign" or st["rv"]["k"] != "agg" or st["rv"].get("adt") != WDR or st["rv"].get("variant") != "Fixed":
+                    continue
+                n_aggs += 1
+                def root(l):
+                    """Follow copies / borrows / unsizing casts back to the local that holds the array."""
+                    for _ in range(8):
+                        ds = [n for _, n in f.defs_of(l) if n["k"] == "assign"]
+                        if len(ds) != 1 or ds[0]["rv"]["k"] not in ("use", "ref", "cast"):
+                            return l
+                        src = ds[0]["rv"].get("pl") or lib.operand_place(ds[0]["rv"].get("op") or {})
+                        if src is None or [x for x in src["p"] if x != "*"]:
+                            return l
+                        l = src["l"]
+                    return l
+                masks = []
+                for fname, o in zip(st["rv"]["fields"], st["rv"]["ops"]):
+                    if fname.startswith("nth_from_"):
+                        pl = lib.operand_place(o)
+                        masks.append(root(pl["l"]) if pl is not None and not pl["p"] else None)
+                ok = len(masks) == 2 and None not in masks
+                why = "the masks are not plain locals"
+                if ok:
+                    # contains(&mask, &true) on each mask, dominating the aggregate
+                    cs = {}
+                    for cbb, t in f.calls():
+                        if flow.call_name(t).endswith("<impl [T]>::contains"):
+                            rp = lib.operand_place(t["args"][0])
+                            tgt = root(rp["l"]) if rp is not None else None
+                            needle = flow.shape(f, t["args"][1], depth=4)
+                            if tgt in masks and needle in ("1", "true"):
+                                cs[tgt] = (cbb, t)
+                    resets = [rbb for rbb, rb in f.live_blocks() if {s2["dst"]["l"] for s2 in rb["stmts"] if s2["k"] == "assign" and s2["rv"]["k"] == "repeat" and s2["rv"]["op"].get("bool") is True and not s2["dst"]["p"]} >= set(masks)]
+                    ok = set(cs) == set(masks) and len(resets) >= 1
+                    why = "no `contains(&true)` test of both masks before the value is built" if set(cs) != set(masks) else "no branch that sets both masks to all positions"
+                    if ok:
+                        # test 1 dominates the aggregate; test 2 is evaluated exactly when test 1 found no
+                        # position; the reset is reached exactly when test 2 found none either
+                        edges = {}
+                        for m_ in masks:
+                            cbb, t = cs[m_]
+                            sw = f.blocks[t["t"]]["term"] if t["t"] is not None else None
+                            spl = lib.operand_place(sw["op"]) if sw is not None and sw["k"] == "switch" else None
+                            if spl is None or spl["l"] != t["dst"]["l"] or spl["p"]:
+                                ok, why = False, "the result of `contains` is not branched on directly"
+                                break
+                            tg = dict(sw["targets"])
+                            edges[m_] = (cbb, tg[0] if 0 in tg else sw["otherwise"])
+                        if ok:
+                            good = False
+                            for first, second in ((masks[0], masks[1]), (masks[1], masks[0])):
+                                c1, e1 = edges[first]
+                                c2, e2 = edges[second]
+                                if f.dominates(c1, bb) and f.dominates(e1, c2) and any(f.dominates(e2, r) for r in resets):
+                                    good = True
+                            ok = good
+                            why = "the all-positions reset is not on the branch where neither mask has a position, or the tests do not precede the construction"
+                r5.check(ok, {"fn": f.id.split("::")[-1], "guarantee": "a weekday selector built by the parser always has a position selected (both masks empty -> reset to all positions)"}, "C04.R5:nth-nonempty:%s" % f.id,
+                         "%s can build a weekday selector with no position selected (%s): Display for WeekDayRange then panics on `weeknum_iter.next().unwrap()`" % (f.id, why), lib.where_of(f, st))
+    r5.check(n_aggs >= 1, {"parser_sites_building_WeekDayRange::Fixed": n_aggs}, "C04.R5:nth-nonempty:anchor", "no parser site builds WeekDayRange::Fixed", None)
     import c02
     sub = lib.Result("C04")
     c02.run(ctx, prog, sub)
